@@ -1,8 +1,8 @@
 (* C15, partition part.  Model of
      dds/src/dcps/dcps_domain_participant/discovery_methods.rs
-        fn fnmatch_to_regex (l. 3360)                         -> `fnmatch_to_regex`
-        the partition test of process_discovered_readers (l. 848-890) and
-        process_discovered_writers (l. 1409-1450)             -> `partition_matched`
+        fn fnmatch_to_regex (l. 3603)                         -> `fnmatch_to_regex`
+        the partition test of process_discovered_readers (l. 920-962) and
+        process_discovered_writers (l. 1556-1596)             -> `partition_matched`
    The `regex` crate itself is NOT modelled from its source: `regex_parse` / `reps_match`
    describe what `Regex::new(s)` / `is_match` do on the strings `fnmatch_to_regex` can
    produce (anchored, literals escaped, `.`, `.*`, bracket classes, `+`); this description
@@ -43,7 +43,7 @@ Fixpoint names_eqb (a b : list name) : bool :=
 Definition name_in (n : name) (l : list name) : bool := existsb (name_eqb n) l.
 
 (* ================================================================== the code *)
-(* The regex string, piece by piece.  `^` in front and `$` at the end are implicit. *)
+(* The regex string, piece by piece.  `(?s)^` in front (d70d0d9) and `$` at the end are implicit. *)
 Inductive tok : Type :=
 | TLit (c : Z)                          (* one character of regex::escape(literal) *)
 | TDot                                  (* "."  *)
@@ -108,7 +108,7 @@ Definition fnmatch_to_regex (pattern : name) : list tok :=
 (* ------------------------------------------------------------------ the regex crate, as used here *)
 Inductive cset : Type :=
 | CSingle (c : Z)
-| CAny                                    (* `.` without the s flag: everything but \n *)
+| CAny                                    (* `.` under the s flag: every character *)
 | CRanges (neg : bool) (rs : list (Z * Z)).
 Inductive rep : Type := ROne (s : cset) | RStar (s : cset) | RPlus (s : cset).
 
@@ -116,7 +116,7 @@ Definition in_range (c : Z) (r : Z * Z) : bool := (fst r <=? c) && (c <=? snd r)
 Definition cset_mem (s : cset) (c : Z) : bool :=
   match s with
   | CSingle x => c =? x
-  | CAny => negb (c =? c_newline)
+  | CAny => true
   | CRanges neg rs => xorb neg (existsb (in_range c) rs)
   end.
 
@@ -363,9 +363,8 @@ Definition code_pair_match (a b : name) : bool :=
 Definition known_two_wildcards (a b : list name) : bool :=
   existsb (fun x => existsb (fun y => wild x && wild y && code_pair_match x y) b) a.
 
-(* class 6 (finding C15-partition-newline): `.` does not match a line feed, `?` and `*` do *)
-Definition has_newline (n : name) : bool := existsb (Z.eqb c_newline) n.
-Definition known_newline (a b : list name) : bool := existsb has_newline a || existsb has_newline b.
+(* class 6 (C15-partition-newline: `.` did not match a line feed) was fixed by d70d0d9
+   (the regex now starts with `(?s)`); the number is not reused *)
 
 Definition known_partition (a b : list name) : bool :=
-  known_plus a b || known_default a b || known_two_wildcards a b || known_newline a b.
+  known_plus a b || known_default a b || known_two_wildcards a b.
